@@ -702,6 +702,13 @@ def mutants(tree):
     m.append(Mutant("`nowait` on the zeroing loop whose array the next worksharing loop accumulates into", CI,
                     expect="barrier-order",
                     fn=_in_func(CI, "compute_num_spline_contribs", "#pragma omp for\n", "#pragma omp for nowait\n")))
+    m.append(Mutant("`schedule(static) nowait` on the natm*nrad zeroing loop, `schedule(static)` on the natm loop "
+                    "after it: different trip counts, so not the same distribution", CI,
+                    expect="barrier-order",
+                    fn=_chain(_in_func(CI, "compute_num_spline_contribs", "#pragma omp for\n",
+                                       "#pragma omp for schedule(static)\n", count=2),
+                              _in_func(CI, "compute_num_spline_contribs", "#pragma omp for\n",
+                                       "#pragma omp for schedule(static) nowait\n"))))
     m.append(Mutant("block length clipped only for the last thread (SDMXcontract_ao_to_bas_bwd)", FS,
                     expect="block-clip",
                     fn=_in_func(FS, "SDMXcontract_ao_to_bas_bwd", "bgrids = MIN(ip + blksize, ngrids) - ip;",
